@@ -30,7 +30,8 @@ def isValidExemplarMetric (typ famName sampleName : Str) : Bool :=
 
 def labelItem (kv : Str × Str) : Str := escapeLabelName kv.1 ++ ['=', '"'] ++ escape kv.2 ++ ['"']
 
-def exemplarItem (kv : Str × Str) : Str := kv.1 ++ ['=', '"'] ++ escapeExemplarValue kv.2 ++ ['"']
+def exemplarItem (kv : Str × Str) : Str :=
+  (if Generated.Expo.exemplarNameEscaped then escapeLabelName kv.1 else kv.1) ++ ['=', '"'] ++ escapeExemplarValue kv.2 ++ ['"']
 
 def exemplarStr (e : Exemplar) : Str :=
   let labels := ['{'] ++ joinStr [','] ((sortByKey e.labels).map exemplarItem) ++ ['}']
